@@ -508,6 +508,9 @@ func genCoreCase(rng *Rng, maxOps int, variant string) (*CoreCase, error) {
 	if variant == "gangdeep" {
 		return genGangDeep(rng, maxOps)
 	}
+	if variant == "preemptdeep" {
+		return genPreemptDeep(rng, maxOps)
+	}
 	mix, ok := coreMix[variant]
 	if !ok {
 		mix = coreMix[""]
@@ -792,6 +795,138 @@ func genGangDeep(rng *Rng, maxOps int) (*CoreCase, error) {
 			emit(g.opNodeAdd())
 		default:
 			emit(g.opBound())
+		}
+	}
+	for i := 0; i < 2; i++ {
+		emit(CoreOp{Kind: "sched"})
+	}
+	return c, nil
+}
+
+// genPreemptDeep builds histories in which preemption actually happens: two leaf queues with guaranteed
+// resources, a cluster filled by a low priority application of one queue, then asks of another application (under
+// its guarantee, allowed to preempt others, old enough) and daemon-set style asks that require a full node;
+// scheduling cycles, then confirmations of the announced releases (late, twice, never) and other disturbances.
+func genPreemptDeep(rng *Rng, maxOps int) (*CoreCase, error) {
+	ntypes := 1 + rng.Intn(2)
+	capv := int64(8 + rng.Intn(8))
+	nn := 2 + rng.Intn(2)
+	g0 := CoreRes{}
+	for t := 0; t < ntypes; t++ {
+		g0[coreTypes[t]] = capv * int64(nn) / 2
+	}
+	root := &genQueue{name: "root", parent: true, submit: "*"}
+	qa := &genQueue{name: "q0", guar: g0}
+	qb := &genQueue{name: "q1", guar: g0}
+	if rng.Chance(30) {
+		// a parent level: fences and policies are inherited through it
+		mid := &genQueue{name: "q2", parent: true, children: []*genQueue{{name: "c0", guar: g0}}}
+		root.children = []*genQueue{qa, qb, mid}
+	} else {
+		root.children = []*genQueue{qa, qb}
+	}
+	w := CoreWorld{Configs: []string{coreConfigYAML(root, true, []string{"fair", "binpacking"}[rng.Intn(2)])}, ResDelayOn: rng.Chance(70), Seed: rng.Next()}
+	c := &CoreCase{World: w}
+	d, err := newCoreDriver(&c.World)
+	if err != nil {
+		return nil, err
+	}
+	c.Init = d.observe()
+	g := &genState{r: rng, ntypes: ntypes, gangApps: map[string][]string{}, keys: map[string][]string{}, variant: "preempt", leaves: []string{"root.q0", "root.q1"}}
+	var pending []CoreEvent
+	emit := func(op CoreOp) {
+		c.Ops = append(c.Ops, op)
+		st := d.step(&c.Ops[len(c.Ops)-1])
+		c.Steps = append(c.Steps, st)
+		for _, e := range st.Events {
+			if e.Kind == "release" && (e.TType == 2 || e.TType == 3 || e.TType == 4) {
+				pending = append(pending, e)
+			}
+		}
+	}
+	for i := 0; i < nn; i++ {
+		cp := CoreRes{}
+		for t := 0; t < ntypes; t++ {
+			cp[coreTypes[t]] = capv
+		}
+		g.nextNode++
+		id := fmt.Sprintf("node-%d", g.nextNode)
+		g.nodes = append(g.nodes, id)
+		emit(CoreOp{Kind: "node_add", Node: id, Cap: cp})
+	}
+	mk := func(queue, user string) string {
+		g.nextApp++
+		app := fmt.Sprintf("app-%d", g.nextApp)
+		g.apps = append(g.apps, app)
+		emit(CoreOp{Kind: "app_add", App: app, Queue: queue, User: user, Groups: []string{"g1"}})
+		return app
+	}
+	low := mk("root.q0", "u1")
+	if rng.Chance(40) {
+		mk("root.q0", "u1")
+	}
+	// fill the cluster with small low priority allocations of queue q0 (above its guarantee)
+	size := int64(1 + rng.Intn(3))
+	nfill := int(capv*int64(nn)/size) + 1
+	for i := 0; i < nfill; i++ {
+		r := CoreRes{}
+		for t := 0; t < ntypes; t++ {
+			r[coreTypes[t]] = size
+		}
+		op := CoreOp{Kind: "alloc", App: g.apps[rng.Intn(len(g.apps))], Key: "", Res: r, AgeSec: 3600, Prio: int32(rng.Intn(2))}
+		op.Key = g.newKey(op.App)
+		if rng.Chance(10) {
+			op.NoPreempt = true
+		}
+		if rng.Chance(8) {
+			op.ReqNode = g.pick(g.nodes) // a daemon-set pod: never a victim
+		}
+		emit(op)
+	}
+	for i := 0; i < nfill+1; i++ {
+		emit(CoreOp{Kind: "sched"})
+	}
+	_ = low
+	high := mk("root.q1", "u2")
+	nask := 1 + rng.Intn(3)
+	for i := 0; i < nask; i++ {
+		r := CoreRes{}
+		for t := 0; t < ntypes; t++ {
+			r[coreTypes[t]] = size + int64(rng.Intn(3))
+		}
+		op := CoreOp{Kind: "alloc", App: high, Key: g.newKey(high), Res: r, AgeSec: 3600, Prio: int32(3 + rng.Intn(3)), PreemptOther: rng.Chance(85)}
+		if rng.Chance(25) {
+			op.ReqNode = g.pick(g.nodes)
+		}
+		emit(op)
+	}
+	nops := 8 + rng.Intn(maxOps/2+1)
+	for i := 0; i < nops; i++ {
+		x := rng.Intn(100)
+		switch {
+		case x < 45:
+			emit(CoreOp{Kind: "sched"})
+		case x < 62:
+			emit(g.opRelease(&pending))
+		case x < 68:
+			if n := g.pick(g.nodes); n != "" {
+				emit(CoreOp{Kind: []string{"node_remove", "node_drain", "node_undrain"}[rng.Intn(3)], Node: n})
+			}
+		case x < 73:
+			emit(CoreOp{Kind: "app_remove", App: g.pick(g.apps)})
+		case x < 88:
+			op := g.opAsk()
+			if op.Kind == "alloc" && rng.Chance(60) {
+				op.PreemptOther = true
+				op.Prio = int32(3 + rng.Intn(3))
+			}
+			emit(op)
+		case x < 92:
+			emit(g.opNodeAdd())
+		case x < 96:
+			emit(g.opForeign())
+		default:
+			emit(CoreOp{Kind: "fire_state", App: g.pick(g.apps)})
 		}
 	}
 	for i := 0; i < 2; i++ {
